@@ -260,6 +260,19 @@ def run(ctx):
                 return False, "call at %s:%d does not establish %s <= 0" % (cf.b.file, t["line"], cf.show(ng))
         return True, "established at %d call site(s)" % len(cs)
 
+    def len_bounded(fn, ll, bb):
+        """x <= len(K) + 64 for some collection K whose length occurs in a guard in force at the site: then x + c with
+        c <= 8 cannot wrap (Vec/str lengths are at most isize::MAX). Returns a description or None."""
+        bases = set()
+        for ln, _op in fn.bnd.facts_at(bb, "term"):
+            for base in ln.t:
+                if base[0] == "len":
+                    bases.add(base)
+        for base in sorted(bases):
+            if fn.bnd.prove(ll.add(Lin({base: 1}), -1).add(Lin({}, -64)), bb, "term"):
+                return "<= len(%s)+64" % base[1]
+        return None
+
     def settle(fn, kind, what, line, bb, goals=None, cls=None, why_fail="", detail=None, alpha_terms=None, alpha_tag=""):
         b = fn.b
         base_key = "%s:%s:%s" % (b.npath, kind, what)
@@ -348,6 +361,10 @@ def run(ctx):
                     elif op in ("Add", "Sub") and small and loc is not None and fn.is_counter(loc):
                         settle(fn, "P4", what, t["line"], i, cls="counter",
                                detail="`%s` changes only by small constants; bounded by the number of loop iterations (A1)" % fn.lname(loc))
+                    elif op == "Add" and small and lty in ("usize", "u64") and len_bounded(fn, ll, i):
+                        settle(fn, "P4", what, t["line"], i, cls="auto",
+                               detail="`%s` is bounded by a collection length plus a constant at this point (%s), and lengths "
+                                      "never exceed isize::MAX, so adding %d cannot wrap" % (fn.show(ll), len_bounded(fn, ll, i), r["int"]))
                     elif op == "Add" and small and lty in ("usize", "u64"):
                         settle(fn, "P4", what, t["line"], i, cls="A1", detail="position/length plus a small constant (A1)")
                     elif op in ("Add", "Sub") and small and lty in ("i32", "i64", "isize"):
